@@ -111,7 +111,7 @@ PROPS = {
     "C11": {
         "level": "exploration",
         "interpreters": PRODUCERS,
-        "rule": "all 2^18 subsets of the flag bits CPython defines (dis.COMPILER_FLAG_NAMES + __future__ compiler flags, read from CPython, not from the library) converted to names and back, in chunks of 64 words each run in a freshly forked child (enum's pseudo-member cache); every word with exactly one of the 14 unknown bits x subsets of known flags of size <=2 (thorough: x all 2^18); header alterations of 13 base code objects: co_flags XOR every mask of Hamming weight <=2 over 32 bits (529 each), and every (argcount, posonlyargcount, kwonlyargcount) triple in 0..min(len(varnames),4) x {0, each single flag bit} that types.CodeType accepts. Oracle: from_code raises or to_code() is strictly identical to the altered object. distinct_nontrivial = distinct flag words + distinct (base, alteration) pairs built.",
+        "rule": "all 2^18 subsets of the flag bits CPython defines (dis.COMPILER_FLAG_NAMES + __future__ compiler flags, read from CPython, not from the library) converted to names and back, in chunks of 64 words each run in a freshly forked child (enum's pseudo-member cache); every word with exactly one of the 14 unknown bits x subsets of known flags of size <=2 (thorough: x all 2^18); header alterations of 13 base code objects: co_flags XOR every mask of Hamming weight <=2 over 32 bits (529 each), and every (argcount, posonlyargcount, kwonlyargcount) triple in 0..min(len(varnames),4) x {0, each single flag bit} that types.CodeType accepts; and every name-carrying header entry (each variable/cell/free/global name, co_name, co_filename) replaced in turn by '', a non-identifier and a lone surrogate. Oracle: from_code raises or to_code() is strictly identical to the altered object. distinct_nontrivial = distinct flag words + distinct (base, alteration) pairs built.",
         "assumptions": TRUST,
         "required_reach": {"quick": ["word-ok", "unknown-bit-raises", "reproduced", "from_code-raises"]},
         "shards": {"quick": 16, "thorough": 16},
